@@ -254,6 +254,7 @@ struct Stats {
     replayed_files: u64,
     enumerated: u64,
     sub_executions: u64,
+    by_cap: BTreeMap<String, u64>,
     violations: Vec<Violation>,
 }
 
@@ -359,6 +360,7 @@ impl<'a> Session<'a> {
         let cell = case["cell"].as_str().unwrap_or("?").to_string();
         if count {
             st.evaluations += 1;
+            *st.by_cap.entry(cap.unwrap_or("native").to_string()).or_default() += 1;
             if flavour == 'B' {
                 st.evaluations_b += 1;
             }
@@ -714,6 +716,7 @@ pub fn check(prop: &dyn Prop, opts: &Opts) -> i32 {
             "oracle_comparisons": st.checks,
             "evaluations_flavour_b_asan_checked": st.evaluations_b,
             "flavour_b_available": have_b,
+            "evaluations_by_cpu_tier_cap": st.by_cap,
             "skipped": st.skipped,
             "labels": st.labels,
             "cells": cells,
